@@ -141,6 +141,24 @@ claim("C13",
       "defaults, examples; unrolled vs folded recursive types are never compared.",
       "TLC exhaustive model checking + vectors replayed on real code + TLC trace validation", "DESIGN.md 6 (C13)")
 
+claim("C07",
+      "OpenAPIOps.tla part 1 (design built step by step: base paths, verbs, 1-2 routes, path/query/header/cookie parameters, body, responses and declared errors, "
+      "security at API/service/method level with NoSecurity, file servers; ExpectedOps/ExpectedMounts oracle, v3 and v2 projections, directory fold) is "
+      "model-checked per family with 10 deviation guards; every enumerated design is generated by the real generators; the operations the generated server "
+      "really serves are observed by recording Handle() calls and by raw HTTP probes on every mounted route (which parameters are read, required flags, body, "
+      "statuses, security alternatives); openapi3.json/.yaml and openapi.json/.yaml are parsed and validated with kin-openapi (+ structural rules it does not "
+      "enforce, JSON = YAML deep comparison); all tables are judged by TLC trace validation.",
+      "Trusted: kin-openapi v0.128.0 (openapi3 loader/validator, openapi2 + openapi2conv) as validity oracle, yaml.v3, the probe-based projection of server behaviour.",
+      "TLC exhaustive model checking + real generators and server probes + TLC trace validation", "DESIGN.md 6 (C07)")
+claim("C14",
+      "OpenAPIOps.tla part 2 (HTTPTransport's exchange plus raw requests no generated client sends: negative unsigned numbers, wrong-type text, JSON null, omitted "
+      "required elements; SchemaReqVerdicts/SchemaRespVerdicts = what the published schema accepts) is model-checked with 9 deviation guards; every exchange is "
+      "run through the real generated server, the exact wire request/response is validated with kin-openapi openapi3filter against the generated openapi3.json, "
+      "and the three verdicts (schema, server, design) are judged by TLC trace validation.",
+      "Trusted: kin-openapi openapi3filter with routers/legacy as schema oracle (example validation off, header lines joined, defaults not applied, empty header "
+      "values not judged). JSON bodies only. Documents kin-openapi cannot load are reported under C07 and skipped here.",
+      "TLC exhaustive model checking + generated server vs schema oracle + TLC trace validation", "DESIGN.md 6 (C14)")
+
 for p in ALL:
     if p not in CLAIMED:
         NOT_APPLICABLE[p] = "check not built yet in this revision (planned with the same technique, see DESIGN.md section 6)"
